@@ -325,3 +325,36 @@ pub fn signal_env(p: SigPlan) -> impl FnMut(&mut Sim, u64) -> bool + use<> {
     }
 }
 
+
+/// Replaces the shell's standard input by a pipe written by an auxiliary
+/// process: each item is delivered in one piece after the given nap
+/// (simulated milliseconds). The pipe is closed after the last one.
+pub fn plumb_slow_stdin(w: &mut World, items: Vec<(u64, Vec<u8>)>) {
+    use crate::world::VS;
+    use yash_env::io::Fd;
+    use yash_env::semantics::ExitStatus;
+    use yash_env::system::concurrency::{Sleep as _, WriteAll as _};
+    use yash_env::system::{Close as _, Dup as _, Exit as _, Pipe as _};
+    let (r, wfd) = w.system.pipe().unwrap();
+    w.system.dup2(r, Fd(0)).unwrap();
+    w.system.close(r).unwrap();
+    let body = w.system.state.borrow().processes[&Pid(2)].fds()[&wfd].clone();
+    w.system.close(wfd).unwrap();
+    w.spawn_aux(
+        move |sys| {
+            sys.current_process_mut().set_fd(Fd(1), body).ok();
+        },
+        move |conc: VS| async move {
+            for (nap, data) in items {
+                if nap > 0 {
+                    conc.sleep(std::time::Duration::from_millis(nap)).await;
+                }
+                if conc.write_all(Fd(1), &data).await.is_err() {
+                    break;
+                }
+            }
+            conc.close(Fd(1)).ok();
+            conc.exit(ExitStatus(0)).await;
+        },
+    );
+}
